@@ -262,6 +262,8 @@ def finish(ctx, out=print):
         out(f'NOTE: {n}')
     for o in undec:
         out(f'UNDECIDED: {o.rule} {o.name} at {o.site} ({o.construct[:80]})')
+        if os.environ.get('VSTATIC_DEBUG') and o.detail:
+            out('    ' + json.dumps(o.detail, default=str)[:3000])
     for o, k in known_hits:
         out(f'KNOWN-FINDING: property={ctx.prop} {o.rule} {o.site.partition("::")[2]}: {k.get("what", o.name)}')
     rdir = os.path.join(VERIF, 'replays')
